@@ -426,9 +426,7 @@ def run(repo, chk):
                    expected=th_w.get(nt), found=th_r.get(nt))
     attr_r = dict(re.findall(r"node\.node_type == '(\w+)':\s*threshold = [^\n]*\n\s*control_obj = Control\._conditional_control\(node, '(\w+)'", src_r))
     chk.expect(attr_r == {"Junction": "pressure", "Tank": "level"}, "R-C12-2", "[CONTROLS] junction thresholds are pressures, tank thresholds are levels", loc(rctl), found=attr_r)
-    m = re.search(r"'time': all_control\._condition\._threshold / 3600\.0", src_w)
-    r1 = "int(float(current[5]) * 3600)" in src_r
-    chk.expect(bool(m) and r1, "R-C12-2", "[CONTROLS] times are written in hours and read back as hours * 3600", loc(wctl))
+    # (the time token of simple time controls is decided by R-C12-8: finite evaluation of writer and reader, any text format accepted)
 
     # ---------------------------------------------------------------- rules: six sibling attribute -> unit maps
     rule = repo.cls(IO, "_EpanetRule")
@@ -579,6 +577,24 @@ def run(repo, chk):
         except Unknown as ex_:
             okinv, bad = False, (sec, str(ex_))
     chk.expect(okinv, "R-C12-7", "_sec_to_string(sec) = (h, m, s) with h*3600 + m*60 + s = sec and 0 <= m, s < 60", loc(s2s), found=bad)
+    # simple time controls: the token written for `AT TIME t` reads back as t for every whole second
+    from ._shared import control_time_round_trip, rule_clock_round_trip
+    rows_, wcf, rcf = control_time_round_trip(repo)
+    chk.fn(wcf, rcf)
+    chk.sample({"rule": "R-C12-8", "time_control_round_trip": [(t, tok, back) for t, tok, back in rows_[:8]]})
+    for t, tok, back in rows_:
+        chk.expect(back == t, "R-C12-8", "a simple control AT TIME %d s is written as a token that reads back as %d s" % (t, t), loc(wcf),
+                   "finite evaluation of the 'time' value and format spec of _write_controls composed with the reader's conversion of that token",
+                   expected=t, found="%r reads back as %s" % (tok, back))
+    # rule clock times: _sec_to_clock (writer side of SYSTEM CLOCKTIME clauses) composed with _parse_value (reader side)
+    rows_, s2cf, pvf = rule_clock_round_trip(repo)
+    chk.fn(s2cf, pvf)
+    for hour in range(24):
+        hb = [(t, txt, back) for t, txt, back in rows_ if t // 3600 == hour and back != t]
+        chk.expect(not hb, "R-C12-8", "a rule's SYSTEM CLOCKTIME threshold in hour %02d reads back as the same instant" % hour, loc(pvf),
+                   "finite evaluation of ControlCondition._sec_to_clock composed with ControlCondition._parse_value",
+                   expected=hb[0][0] if hb else None, found=("%r reads back as %s" % (hb[0][1], hb[0][2])) if hb else None)
+    chk.floor("R-C12-8", 16 + 24)
     # START CLOCKTIME: the 12-hour writer composed with _clock_time_to_sec is the identity on every hour of the day
     from ._shared import clocktime_round_trip
     rows, wtf, rdf = clocktime_round_trip(repo)
@@ -592,6 +608,8 @@ def run(repo, chk):
 
 
 WITNESSES = [
+    dict(name="control-time-as-decimal-hours", file=IO, old="                    entry = '{ltype} {link} {setting} AT {compare} {time}\\n'", new="                    entry = '{ltype} {link} {setting} AT {compare} {time:g}\\n'", rule="R-C12-8"),
+    dict(name="rule-clock-12am-not-mapped", file="wntr/network/controls.py", old="            if len(words) > 1 and words[1] in ('AM', 'PM') and hours == 12:\n                hours = 0", new="            if False:\n                hours = 0", rule="R-C12-8"),
     dict(name="noon-hour-written-as-am", file=IO, old="        if hrs < 12:\n            time_format = ' AM'\n        else:\n            hrs -= 12\n            time_format = ' PM'",
          new="        time_format = ' AM'\n        if hrs > 12:\n            hrs -= 12\n            time_format = ' PM'", rule="R-C12-7"),
     dict(name="pipe-length-class", file=IO, old="                        to_si(self.flow_units, float(current[3]), HydParam.Length),\n                        to_si(self.flow_units, float(current[4]), HydParam.PipeDiameter),", new="                        to_si(self.flow_units, float(current[3]), HydParam.PipeDiameter),\n                        to_si(self.flow_units, float(current[4]), HydParam.PipeDiameter),", rule="R-C12-2"),
